@@ -110,17 +110,38 @@ def run_once(scn, choices=None, expect=None, keep_trace=False):
 _w = {}
 
 
-def _winit(ident, bound, deadline):
+def _winit():
     venv.install()
-    _w["scn"] = load_scenario(ident)
-    _w["bound"] = bound
-    _w["seen"] = set()
-    _w["deadline"] = deadline
 
 
-def _item(item):
+def _setup(job):
+    jid, ident, bound, deadline = job
+    if _w.get("jid") != jid:
+        _w["jid"] = jid
+        _w["scn"] = load_scenario(ident)
+        _w["bound"] = bound
+        _w["seen"] = set()
+        _w["deadline"] = deadline
+
+
+_POOL = None
+_JOB = [0]
+
+
+def pool(jobs=None):
+    """One worker pool per check process, shared by all scenarios."""
+    global _POOL
+    if _POOL is None:
+        ctx = mp.get_context("fork")
+        _POOL = ctx.Pool(jobs or common.NPROC, initializer=_winit)
+    return _POOL
+
+
+def _item(arg):
     """Explore one choice map; recurse locally into children that have used
     up the budget (only free alternatives remain below them)."""
+    job, item = arg
+    _setup(job)
     scn, bound = _w["scn"], _w["bound"]
     out = {"execs": 0, "steps": 0, "new_states": [], "hashes": [], "obs": {}, "viol": [], "children": [], "bp": 0, "samples": [], "capped": False}
     stack = [item]
@@ -159,30 +180,29 @@ def _item(item):
                 if c > bound:
                     continue
                 child = (choices + ((i, a),), expect + ((i, sig),), c)
-                if c >= bound:
-                    stack.append(child)
-                else:
-                    out["children"].append(child)
+                out["children"].append(child)
     return out
 
 
-def explore(scn, bound, run=None, part=None, time_cap=None, jobs=None, verify_viol=True):
+def explore(scn, bound, run=None, part=None, time_cap=None, jobs=None, verify_viol=True, prefix_keys=True):
     """Exhaustively explore `scn` up to total deviation cost `bound`.
     Returns a summary dict; reports violations through run.violation()."""
     ident = scn.ident()
     jobs = jobs or common.NPROC
-    ctx = mp.get_context("fork")
     t0 = time.time()
     rnd = random.Random(common.SEED)
     summary = {"execs": 0, "steps": 0, "states": set(), "hashes": set(), "obs": {}, "viol": [], "bp": 0, "capped": False, "samples": [], "bound": bound}
     deadline = (t0 + time_cap) if time_cap else None
-    with ctx.Pool(jobs, initializer=_winit, initargs=(ident, bound, deadline)) as pool:
+    _JOB[0] += 1
+    job = (_JOB[0], ident, bound, deadline)
+    pl = pool(jobs)
+    if True:
         frontier = [((), (), 0)]
         while frontier:
             rnd.shuffle(frontier)
             nxt = []
-            chunk = 1 if len(frontier) < jobs * 8 else 4
-            for out in pool.imap_unordered(_item, frontier, chunksize=chunk):
+            chunk = 1 if len(frontier) < jobs * 8 else min(16, len(frontier) // (jobs * 4))
+            for out in pl.imap_unordered(_item, [(job, f) for f in frontier], chunksize=chunk):
                 summary["execs"] += out["execs"]
                 summary["steps"] += out["steps"]
                 summary["bp"] += out["bp"]
@@ -198,9 +218,7 @@ def explore(scn, bound, run=None, part=None, time_cap=None, jobs=None, verify_vi
                     summary["capped"] = True
                 if time_cap and time.time() - t0 > time_cap:
                     summary["capped"] = True
-                    pool.terminate()
                     nxt = []
-                    break
             frontier = nxt
     summary["wall"] = time.time() - t0
     # group violations by key, verify determinism of the first of each key
@@ -241,7 +259,7 @@ def explore(scn, bound, run=None, part=None, time_cap=None, jobs=None, verify_vi
                 ok = _verify(scn, rep, key)
                 if not ok:
                     key, what = "harness:nondeterministic", f"violation {key} did not replay identically: {what}"
-            run.violation(f"{name}:{key}" if not key.startswith("harness:") else key, f"{what} [{len(lst)} executions]", rep)
+            run.violation(f"{name}:{key}" if (prefix_keys and not key.startswith("harness:")) else key, f"[{name}] {what} [{len(lst)} executions]", rep)
     return summary
 
 
